@@ -237,8 +237,8 @@ type ProgramCase struct {
 	Procs            int    `json:"gomaxprocs"`
 	Listener         bool   `json:"listener"`
 	Layout           string `json:"layout"`
-	Pre              int    `json:"pre"`               // key files 0..Pre-1 exist before Initialize
-	InitialListeners int    `json:"initial_listeners"` // passed to NewFilesystemWallet
+	Pre              int    `json:"pre"`                // key files 0..Pre-1 exist before Initialize
+	InitialListeners int    `json:"initial_listeners"`  // passed to NewFilesystemWallet
 	Sentinel         int    `json:"sentinel,omitempty"` // how the last file (discovered through events alone) appears: see createFile
 	Threads          [][]Op `json:"threads"`
 }
@@ -603,11 +603,11 @@ func judgeProgram(c ProgramCase) (vs []evid.Violation) {
 			if err != nil {
 				return err
 			}
-			if err := os.Link(tmp, final); err != nil && os.IsExist(err) {
+			err = os.Link(tmp, final)
+			if err != nil && os.IsExist(err) {
 				return os.Rename(tmp, final) // a second delivery of the same name (alias op repeated): replace it
-			} else {
-				return err
 			}
+			return err
 		case 5:
 			if err := os.WriteFile(final, content, 0o600); err != nil {
 				return err
@@ -1240,6 +1240,7 @@ func TestCheck(t *testing.T) {
 	setup(t)
 	rec.Assume("schedules: the Go scheduler and the kernel choose the interleaving; explored = generated programs x GOMAXPROCS {1,2,4,16} (1..16 in the thorough tier) x yields, judged by the race detector (happens-before based, not timing based) and an order-insensitive history oracle")
 	rec.Assume("race reports count only when a frame lies in pkg/fswallet; liveness is a 30 s bound on an otherwise idle process; Sign results are asserted only for keys whose complete file the same goroutine saw a Refresh return for")
+	rec.Assume("a key file reaches its matching name in one of eight generated ways (written in place, in two chunks, created empty then filled, moved in from a staging directory, renamed from a temporary name inside the wallet directory, moved up from a sub-directory, hard-linked in, written then replaced by a rename); the convergence clauses do not depend on which - the sentinel file that closes the event-only phase appears in a generated way as well")
 	rec.Assume("trusted base: Go race detector, inotify, ref/secp + harness keystore writer (anchored against keystorev3.ReadWalletFile at start-up)")
 	k := evid.NewKind(rec, "program", judgeProgram)
 	note = rec.Class
